@@ -127,7 +127,9 @@ func c08EncDoc(symbolic bool) *CandidateNode {
 	a.Content[1].Style = yaml.FlowStyle
 	a.Content[1].FootComment = "foot-inner"
 	a.FootComment = "foot-a"
-	b := vMap(vStr("c"), vInt(x3))
+	inner := vInt("7")
+	inner.Anchor = "in"
+	b := vMap(vStr("c"), vInt(x3), vStr("i"), inner, vStr("j"), &yaml.Node{Kind: yaml.AliasNode, Value: "in", Alias: inner})
 	b.Anchor = "anc"
 	b.FootComment = "foot-b"
 	b.HeadComment = "head-b"
